@@ -95,6 +95,18 @@ var properties = map[string]*Property{
 			"that Comp.Compile reaches NewBind only through Comp.NewBind and does not otherwise touch IntBindMax or the top-level Env.Ints (the hypotheses of lemma replRound tie the three contracts together; the tie itself is a paper step)",
 		},
 	},
+	"C34": {
+		ID:    "C34",
+		Title: "Generic-contract methods on basic and container types agree with Go operators",
+		Units: []Unit{
+			{Kind: "funcs", Pkg: "xreflect", Funcs: []string{"(*Universe).addBasicTypeMethodsCTI"}},
+		},
+		NotCovered: []string{
+			"container methods implemented through reflection (xreflect/cti_method.go: Len, Cap, Index, Append, Slice, ... on slices, arrays, maps, channels)",
+			"that the compiler resolves a method call x.M(...) to the table entry installed for M (fast/ selector code) and the declared signatures in go/types/cti_method.go",
+			"string methods: Index/Slice/Len are compared over an uninterpreted model of strings (same indexing function on both sides)",
+		},
+	},
 	"C37": {
 		ID:    "C37",
 		Title: "REPL command lookup resolves unique prefixes and reports ambiguity",
